@@ -997,6 +997,8 @@ def _len(ex, st, ctx, args, kwargs):
 @reg("D.ar_numpy.zeros")
 def _zeros(ex, st, ctx, args, kwargs):
     shape = args[0]
+    if isinstance(shape, tuple) and len(shape) == 1 and is_z3(shape[0]) and z3.is_int(shape[0]):
+        return SeqVal(z3.K(z3.IntSort(), z3.RealVal(0)), shape[0], "Real")
     if isinstance(shape, tuple) and all(isinstance(k, int) for k in shape):
         if len(shape) == 1:
             return ConcVec([Fraction(0)] * shape[0])
@@ -1262,6 +1264,11 @@ def _stack(ex, st, ctx, args, kwargs):
     if hook:
         return hook(ex, st, ctx, args, kwargs)
     v = args[0]
+    if isinstance(v, Ref) and st.obj(v).kind == "list" and len(st.obj(v).items) == 2 and all(isinstance(x, SeqVal) for x in st.obj(v).items) \
+            and kwargs.get("axis", 0) == 0:
+        a, b = st.obj(v).items          # numpy.concatenate of two 1-D arrays (A3)
+        i = z3.Int(fresh_name("i"))
+        return SeqVal(z3.Lambda([i], z3.If(i < a.length, z3.Select(a.arr, i), z3.Select(b.arr, i - a.length))), a.length + b.length, a.elem)
     if isinstance(v, Ref) and st.obj(v).kind == "list" and st.obj(v).items and \
             all(isinstance(x, (LinComb, BlockVec)) for x in st.obj(v).items) and kwargs.get("axis") == -1:
         return ConcVec(st.obj(v).items)       # stack of state-shaped values along a new last (stage) axis
@@ -1386,3 +1393,16 @@ def _argmin(ex, st, ctx, args, kwargs):
     st.assume(z3.And(r >= 0, r < v.length))
     st.assume(z3.ForAll([k], z3.Implies(z3.And(k >= 0, k < v.length), z3.Select(v.arr, r) <= z3.Select(v.arr, k))))
     return r
+
+
+@reg("same")
+def _same_value(ex, st, ctx, args, kwargs):
+    """same(a, b): equality for numbers / z3 terms, identity for objects (exceptions, references)."""
+    a, b = args
+    if _scalar(a) and _scalar(b):
+        if _num(a) and _num(b):
+            return a == b
+        return to_z3(a) == to_z3(b)
+    if _scalar(a) != _scalar(b):
+        return False
+    return a is b or (isinstance(a, Ref) and isinstance(b, Ref) and a == b)
